@@ -71,7 +71,7 @@ class Workload:
                 )
             )
         wf = Workflow.create(application="verif", name=self.name, stages=stages, context=dict(self.wf_ctx))
-        if any(s.type in ("vsyn", "vsyn2") for s in self.stages):
+        if any(s.type.startswith("vsyn") for s in self.stages):
             register_builders(world)
             if self.notes == "failpost":
                 world.behaviours[("post", "t")] = {"kind": "terminal"}
@@ -396,6 +396,11 @@ def synthetic(fail_post=False):
     )
 
 
+def synthetic_raise():
+    """A -> S(type vsyn_raise: its builder raises while S is being planned) -> Z."""
+    return Workload("synthetic_raise", [St("A"), St("S", ("A",), type="vsyn_raise"), St("Z", ("S",))], klass="racy")
+
+
 def synthetic2():
     """A -> S(type vsyn2: two PARALLEL before-stages pre1, pre2, own task) -> Z."""
     return Workload("synthetic2", [St("A"), St("S", ("A",), type="vsyn2"), St("Z", ("S",))])
@@ -434,8 +439,22 @@ def register_builders(world):
         def after_stages(self, stage, graph):
             pass
 
+    class VSynRaiseBuilder(VSynBuilder):
+        """planning fails: the builder itself raises while the stage is being started"""
+
+        @property
+        def type(self):
+            return "vsyn_raise"
+
+        def before_stages(self, stage, graph):
+            raise ValueError("scripted planning failure")
+
+        def after_stages(self, stage, graph):
+            pass
+
     get_default_factory().register(VSynBuilder())
     get_default_factory().register(VSyn2Builder())
+    get_default_factory().register(VSynRaiseBuilder())
     for n in ("pre1", "pre2"):
         world.behaviours.setdefault((n, "t"), {"kind": "ok", "out": {f"o_{n}": ("name",)}})
     world.behaviours.setdefault(("pre", "t"), {"kind": "ok", "out": {"o_pre": ("name",)}})
